@@ -237,6 +237,37 @@ def field_writes(prog, adt, field, bodies=None):
                 tail = [e for e in p[1:] if e != "*"]
                 if tail and tail[-1].startswith("." + field + ":"):
                     out.append((b, i, j, p, rv, line))
+        # writes through a closure capture: `(*_1.N) = ..` where capture N is `..var.field`
+        caps = b.get("captures") if b.kind == "closure" else None
+        if caps:
+            par = prog.bodies.get(b.get("parent"))
+            for (i, j, p0, rv, line) in b.assigns():
+                p = p0
+                if p[0] != 1 and len(p) >= 2 and p[1] == "*":
+                    # `_16 = _1.0; (*_16) = ..` : a copy of the captured reference
+                    for (bb_, jj_, rv_) in b.defs_of(p[0]):
+                        if jj_ != "term" and rv_[0] == "use":
+                            q_ = op_place(rv_[1])
+                            if q_ is not None and q_[0] == 1 and len(q_) == 2:
+                                p = q_ + p[1:]
+                if p[0] != 1 or len(p) < 2 or not (isinstance(p[1], str) and p[1].startswith(".")):
+                    continue
+                idx = p[1][1:].split(":")[0]
+                if not idx.isdigit() or int(idx) >= len(caps):
+                    continue
+                if any(isinstance(e, str) and e.startswith(".") for e in p[2:]):
+                    continue
+                cp = caps[int(idx)]["place"].lstrip("*")
+                if not cp.endswith("." + field):
+                    continue
+                # the captured variable's type in the parent must be the ADT
+                okty = False
+                if par is not None:
+                    for l in par.locals_named(caps[int(idx)]["var"]):
+                        if adt.split("::")[-1] in par.local_ty(l):
+                            okty = True
+                if okty:
+                    out.append((b, i, j, p0, rv, line))
     return out
 
 
